@@ -1641,6 +1641,7 @@ pub mod verif_trace {
         pub last_flush_pos: u64,
         pub last_processed_pos: u64,
         pub size_hint: usize,
+        pub next_out: (u8, u32),
     }
     thread_local! { pub static LOG: RefCell<Option<Vec<Rec>>> = RefCell::new(None); }
     pub fn enable() {
@@ -1691,6 +1692,7 @@ impl<Alloc: BrotliAlloc> BrotliEncoderStateStruct<Alloc> {
                 last_flush_pos: self.last_flush_pos_,
                 last_processed_pos: self.last_processed_pos_,
                 size_hint: self.params.size_hint,
+                next_out: self.verif_next_out(),
             });
         }
     }
